@@ -302,6 +302,27 @@ def lb_agreement(rep, r, rule, cfg):
     for ev in undeclared:
         rep.fail(rule, ev.where, 'the load-deviation variables exist whenever a criterion reads them %s' % cfg, got='abs_lec_diff read but never declared in this run',
                  want='declared in pulp_setup for this criterion list', construct='deviation variables undeclared', loc=ev.loc)
+    # an element store  model.X[k] = e  for every k of a sort needs a list that has one slot per k already
+    for ev in r.of('store'):
+        t = ev.eff.target
+        if t[0] != 'idx' or not lp.model_attr(t[1]) or t[2][0] != 'bvar':
+            continue
+        a = lp.model_attr(t[1])
+        fors = [c for c, _ in ev.ctx if c.kind == 'for' and c.binder[1] == t[2][1]]
+        sort = r.canon.range_sort(fors[0].binder[3]) if fors else None
+        if sort is None or a in lp.ARR or a in lp.ROWS:
+            continue
+        filled = False
+        for e2 in r.of('append', 'store'):
+            if e2.order >= ev.order:
+                break
+            if e2.kind == 'append' and lp.model_attr(e2.eff.target) == a:
+                f2 = [c for c, _ in e2.ctx if c.kind == 'for']
+                filled = filled or (bool(f2) and r.canon.range_sort(f2[-1].binder[3]) == sort and not e2.sym_ifs)
+            if e2.kind == 'store' and lp.model_attr(e2.eff.target) == a and e2.eff.value[0] in ('comp', 'repeat'):
+                filled = True
+        rep.check(filled, rule, ev.where, 'model.%s[k] = ... replaces an element that exists: the list has one slot per %s %s' % (a, {'L': 'lecturer', 'P': 'project', 'S': 'student'}.get(sort, sort), cfg),
+                  got='no element is ever appended to model.%s in this run' % a, want='one append per index in pulp_setup', construct='element store into unfilled list %s' % a, loc=ev.loc)
     if not uses:
         return
     declared = 'abs_lec_diff' in r.canon.var_arrays or any(l == 'd' for l, _ in r.canon.arr_letter.values())
